@@ -63,9 +63,16 @@ class C18(Check):
 
     def install(self, ctx):
         SM.install(ctx)
+        from checks import stdio as ST
+        ST.install(ctx)
 
     def contracts(self):
-        return [SendMessageC18(False, False, id_mode="given"), SendMessageC18(False, False, id_mode="uuid")]
+        from checks import C13
+        # cross-talk is also possible one layer below, where the stdio client routes an incoming message to per-request
+        # streams: the routing contract (a waiter registered under another id is never handed this message) is
+        # re-verified here
+        return [SendMessageC18(False, False, id_mode="given"), SendMessageC18(False, False, id_mode="uuid"),
+                C13.RouteMessage()]
 
     def loop_invariants(self):
         return {(AWAIT_KEY, 0): SM.await_loop_invariant("C18")}
